@@ -6,6 +6,7 @@ import (
 	"fmt"
 	"iter"
 	"net/netip"
+	"sync/atomic"
 	"testing"
 
 	"github.com/jwhited/corebgp"
@@ -33,48 +34,113 @@ type gotPfx struct {
 
 // c19RunList calls the exported entry point and returns the decoded list in a
 // neutral form, whether the user callback ran, and the error.
+// c19Sink receives what the decode functions hand to their callbacks. The slices are kept
+// as they are (not copied): a decode function is built once and serves every UPDATE of a
+// session, and what it handed over for one UPDATE must not change when it decodes the next.
+type c19Sink struct {
+	plain  [][]netip.Prefix
+	ap     [][]corebgp.AddPathPrefix
+	called int
+}
+
+func c19Plain(s *c19Sink, ps []netip.Prefix) error {
+	s.called++
+	s.plain = append(s.plain, ps)
+	return nil
+}
+
+func c19AP(s *c19Sink, ps []corebgp.AddPathPrefix) error {
+	s.called++
+	s.ap = append(s.ap, ps)
+	return nil
+}
+
+// c19Fns builds one set of decode functions; c19Shared serves the sequential sub-checks
+// (re-use across cases is the point), the concurrent sub-check builds a set per evaluation.
+type c19FnSet struct {
+	nlri, nlriAP, wr, wrAP corebgp.DecodeFn[*c19Sink]
+}
+
+func newC19Fns() *c19FnSet {
+	return &c19FnSet{
+		nlri:   corebgp.NewNLRIDecodeFn[*c19Sink](c19Plain),
+		nlriAP: corebgp.NewNLRIAddPathDecodeFn[*c19Sink](c19AP),
+		wr:     corebgp.NewWithdrawnRoutesDecodeFn[*c19Sink](c19Plain),
+		wrAP:   corebgp.NewWithdrawnAddPathRoutesDecodeFn[*c19Sink](c19AP),
+	}
+}
+
+var (
+	c19Shared = newC19Fns()
+	c19Fresh  atomic.Bool
+)
+
+// interference: other well-formed fields decoded by the same functions afterwards
+var (
+	c19Other4   = []byte{24, 198, 51, 100, 16, 172, 16, 32, 192, 0, 2, 1, 0}
+	c19Other4AP = []byte{0, 0, 0, 9, 24, 198, 51, 100, 0, 0, 0, 8, 16, 172, 16}
+	c19Other6   = []byte{64, 0x20, 0x01, 0x0d, 0xb9, 0, 0, 0, 1, 128, 0x20, 0x01, 0x0d, 0xb8, 0, 0, 0, 0, 0, 0, 0, 0, 0, 0, 0, 7}
+	c19Other6AP = []byte{0, 0, 0, 5, 64, 0x20, 0x01, 0x0d, 0xb9, 0, 0, 0, 1}
+)
+
 func c19RunList(c c19List) (got []gotPfx, called int, err error) {
 	b := append([]byte(nil), c.B...)
-	plain := func(_ *int, ps []netip.Prefix) error {
-		called++
-		for _, p := range ps {
-			got = append(got, gotPfx{bits: p.Bits(), addr: p.Addr().AsSlice()})
-		}
-		return nil
+	fns := c19Shared
+	if c19Fresh.Load() {
+		fns = newC19Fns()
 	}
-	ap := func(_ *int, ps []corebgp.AddPathPrefix) error {
-		called++
-		for _, p := range ps {
-			got = append(got, gotPfx{id: p.ID, bits: p.Prefix.Bits(), addr: p.Prefix.Addr().AsSlice()})
-		}
-		return nil
-	}
-	var x int
+	sink := &c19Sink{}
+	var fn corebgp.DecodeFn[*c19Sink]
+	other := c19Other4
 	switch {
 	case c.Entry == "nlri" && !c.AddPath:
-		err = corebgp.NewNLRIDecodeFn[*int](plain)(&x, b)
+		fn = fns.nlri
 	case c.Entry == "nlri":
-		err = corebgp.NewNLRIAddPathDecodeFn[*int](ap)(&x, b)
+		fn, other = fns.nlriAP, c19Other4AP
 	case c.Entry == "withdrawn" && !c.AddPath:
-		err = corebgp.NewWithdrawnRoutesDecodeFn[*int](plain)(&x, b)
+		fn = fns.wr
 	case c.Entry == "withdrawn":
-		err = corebgp.NewWithdrawnAddPathRoutesDecodeFn[*int](ap)(&x, b)
-	case c.Entry == "mp" && !c.AddPath:
+		fn, other = fns.wrAP, c19Other4AP
+	}
+	partial := false
+	if fn != nil {
+		err = fn(sink, b)
+		if err == nil {
+			fn(&c19Sink{}, append([]byte(nil), other...)) // nolint: errcheck
+		}
+	} else if !c.AddPath {
 		var ps []netip.Prefix
 		ps, err = corebgp.DecodeMPIPv6Prefixes(b)
 		if err == nil {
-			plain(nil, ps)
+			c19Plain(sink, ps)                                              // nolint: errcheck
+			corebgp.DecodeMPIPv6Prefixes(append([]byte(nil), c19Other6...)) // nolint: errcheck
 		} else if len(ps) > 0 {
-			called = -1 // partial result with an error
+			partial = true // partial result with an error
 		}
-	default:
+	} else {
 		var ps []corebgp.AddPathPrefix
 		ps, err = corebgp.DecodeMPIPv6AddPathPrefixes(b)
 		if err == nil {
-			ap(nil, ps)
+			c19AP(sink, ps)                                                          // nolint: errcheck
+			corebgp.DecodeMPIPv6AddPathPrefixes(append([]byte(nil), c19Other6AP...)) // nolint: errcheck
 		} else if len(ps) > 0 {
-			called = -1
+			partial = true
 		}
+	}
+	// only now is the result read
+	for _, ps := range sink.plain {
+		for _, p := range ps {
+			got = append(got, gotPfx{bits: p.Bits(), addr: p.Addr().AsSlice()})
+		}
+	}
+	for _, ps := range sink.ap {
+		for _, p := range ps {
+			got = append(got, gotPfx{id: p.ID, bits: p.Prefix.Bits(), addr: p.Prefix.Addr().AsSlice()})
+		}
+	}
+	called = sink.called
+	if partial {
+		called = -1
 	}
 	return
 }
@@ -356,6 +422,9 @@ func TestC19(t *testing.T) {
 	}), c19ListProp)
 
 	hx.Rapid(r, t, "prefix_lists", r.N(100000, 1000000), genC19List, c19ListProp)
+	c19Fresh.Store(true)
+	hx.Rapid(r, t, "concurrent_decoders", r.N(400, 4000), genConc(genC19List, 2, 6, 40), concProp(c19ListProp))
+	c19Fresh.Store(false)
 
 	// MP_REACH_NLRI: every next-hop length octet x body lengths around the boundary x flags
 	flagSet := []uint8{0x80, 0x90, 0xA0, 0xC0, 0x40, 0x00}
